@@ -45,7 +45,7 @@ impl Prop for C08 {
     type Case = Case;
     const ID: &'static str = "C08";
     const NUM: u64 = 8;
-    const RULE: &'static str = "AdjacencyListWeighted<isize> digraphs without negative circuits by construction (order 1..12 quick / 1..40 thorough): non-negative and potential-based weights as generated; signed classes are kept when the reference finds no negative circuit and otherwise made non-negative by taking absolute values; zero-weight circuits optionally planted; enum leg: every digraph of order <=3 with weights {-1,0,2} that has no negative circuit. About one random case in 60..150 has a large order (17..140, incl. 63..66 and 127..130). Non-trivial = a negative arc, an unreachable ordered pair, and some shortest walk with >=2 intermediate vertices; distinct = distinct serialised case.";
+    const RULE: &'static str = "AdjacencyListWeighted<isize> digraphs without negative circuits by construction (order 1..12 quick / 1..40 thorough): non-negative and potential-based weights as generated; signed classes are kept when the reference finds no negative circuit and otherwise made non-negative by taking absolute values; zero-weight circuits optionally planted; enum leg: every digraph of order <=3 with weights {-1,0,2} that has no negative circuit. About one random case in 60..150 has a large order (17..140, incl. 63..66 and 127..130). distances() is called twice on the same instance and must return the same matrix. Non-trivial = a negative arc, an unreachable ordered pair, and some shortest walk with >=2 intermediate vertices; distinct = distinct serialised case.";
     const ASSUMPTIONS: &'static [&'static str] = &[
         "digraphs with a negative circuit are outside the property and never generated",
         "walk sums stay far inside isize",
